@@ -80,7 +80,7 @@ def tree_hash():
     return h.hexdigest()[:16]
 
 
-def run_batch(worker, prop, tier, first, count, jobs=16, budget=0, extra_env=None, watchdog=180):
+def run_batch(worker, prop, tier, first, count, jobs=16, budget=0, extra_env=None, watchdog=900):
     jobs = int(os.environ.get("VCHECK_JOBS", jobs))
     env = base_env()
     env.update(SIM_PROP=prop, SIM_TIER=tier, SIM_SEEDS="%d:%d" % (first, count), SIM_JOBS=str(jobs), SIM_WATCHDOG_S=str(watchdog))
